@@ -4,6 +4,8 @@ import (
 	"bytes"
 	"fmt"
 	"runtime"
+	"sync"
+	"time"
 
 	tq "github.com/facebookincubator/tacquito"
 	"verif/h/gen"
@@ -29,9 +31,25 @@ func init() {
 	})
 }
 
-type c05Handler struct{}
+// c05Handler also keeps the body slices it was handed (by reference, not copied):
+// a packet already delivered must stay intact while later packets are read.
+type c05Handler struct {
+	mu   sync.Mutex
+	held [][]byte
+}
+
+func (h *c05Handler) take() [][]byte {
+	h.mu.Lock()
+	defer h.mu.Unlock()
+	x := h.held
+	h.held = nil
+	return x
+}
 
 func (h *c05Handler) Handle(resp tq.Response, req tq.Request) {
+	h.mu.Lock()
+	h.held = append(h.held, req.Body)
+	h.mu.Unlock()
 	if n := len(req.Body); n > 0 && req.Body[n-1] == 'C' {
 		resp.Next(h)
 	}
@@ -135,7 +153,8 @@ func maxBody(pk []pktSpec) int {
 func runC05(b *mon.B) {
 	r := gen.New(uint64(b.Seed), 0xC05, uint64(b.Index))
 	secret := []byte("c05-secret-" + r.Alnum(8))
-	srv := kit.StartLib(secret, &c05Handler{})
+	handler := &c05Handler{}
+	srv := kit.StartLib(secret, handler)
 	srv.Net.SetKeepLog(false)
 	defer srv.Stop()
 	chunkings := map[string]bool{}
@@ -173,6 +192,16 @@ func runC05(b *mon.B) {
 			continue
 		}
 		invs := srv.Tap.Since(before)
+		held := handler.take()
+		if len(held) == len(pk) {
+			for i := range pk {
+				if !bytes.Equal(held[i], pk[i].Clear) {
+					b.Violate(caseNo, "C05/server/delivered-packet-changed-later", fmt.Sprintf("the body handed to the handler for packet %d (%d bytes) no longer equals what was sent once the following packets had been read (schedule %q)", i, len(pk[i].Clear), sc.Name),
+						map[string]interface{}{"schedule": sc.Name, "packet_index": i, "body_len": len(pk[i].Clear)})
+					break
+				}
+			}
+		}
 		st := c.Stats()
 		for i, n := range st.ReadHist {
 			b.Count("server_read_sizes["+simnet.SizeBucketNames[i]+"]", n)
@@ -281,6 +310,7 @@ func runC05(b *mon.B) {
 			continue
 		}
 		invs := srv.Tap.Since(before)
+		handler.take()
 		if len(invs) != len(pk)-1 {
 			b.Violate(caseNo, "C05/server/partial-packet-delivered/"+where,
 				fmt.Sprintf("stream ends (%s) %s of packet %d: %d packets reached the handler, %d complete ones were sent", end, where, len(pk), len(invs), len(pk)-1),
@@ -290,6 +320,52 @@ func runC05(b *mon.B) {
 			if i < len(pk) && !bytes.Equal(iv.Body, pk[i].Clear) {
 				b.Violate(caseNo, "C05/server/shortened-packet/"+where, "a packet delivered before the truncation point differs from what was sent", nil)
 			}
+		}
+	}
+
+	// ---- the peer pauses inside a packet (shorter than the read deadline) and resumes
+	for k := 0; k < b.N(30, 600); k++ {
+		caseNo++
+		pk := c05Stream(r, false)
+		if len(pk) > 3 {
+			pk = pk[:3]
+		}
+		pauseIn := r.Intn(len(pk))
+		if len(pk[pauseIn].Clear) < 8 {
+			pk[pauseIn].Clear = c05Body(r, pk[pauseIn].H.Type, 8+r.Intn(60), false)
+		}
+		pause := []time.Duration{500 * time.Millisecond, 1500 * time.Millisecond, 5 * time.Second, 14 * time.Second}[k%4]
+		if !b.Want(caseNo) {
+			continue
+		}
+		b.Eval(1)
+		b.Class("server/pause-inside-packet/%v", pause)
+		c := srv.L.Dial(simnet.RemoteFor(caseNo))
+		before := srv.Tap.Count()
+		for i, p := range pk {
+			w := p.wire(secret)
+			if i == pauseIn {
+				cut := 1 + r.Intn(len(w)-1)
+				c.Feed(w[:cut])
+				c.FeedAfter(pause, w[cut:])
+			} else {
+				c.Feed(w)
+			}
+		}
+		c.EOF()
+		if err := c.WaitClosed(); err != nil {
+			b.Inconclusive("case %d: %v", caseNo, err)
+			continue
+		}
+		invs := srv.Tap.Since(before)
+		handler.take()
+		okAll := len(invs) == len(pk)
+		for i := 0; okAll && i < len(pk); i++ {
+			okAll = invs[i].Session == pk[i].H.Session && invs[i].Seq == pk[i].H.Seq && bytes.Equal(invs[i].Body, pk[i].Clear)
+		}
+		if !okAll {
+			b.Violate(caseNo, "C05/server/pause-inside-packet", fmt.Sprintf("the peer paused %v inside packet %d of %d (well below the read deadline) and resumed: %d packets reached the handler / contents differ", pause, pauseIn+1, len(pk), len(invs)),
+				map[string]interface{}{"pause": pause.String(), "packets": len(pk), "delivered": len(invs)})
 		}
 	}
 
@@ -417,6 +493,7 @@ func runC05(b *mon.B) {
 		conn.EOF()
 		b.Eval(1)
 		b.Class("client/%s/trunc=%v/maxbody%s", sc.Name, truncate, lenBucket(maxBody(replies)))
+		var heldGot []*tq.Packet
 		for i, want := range replies {
 			req := tq.NewPacket(tq.SetPacketHeader(tq.NewHeader(tq.SetHeaderVersion(tq.Version{MajorVersion: 0xc, MinorVersion: uint8(want.H.Minor)}), tq.SetHeaderType(tq.HeaderType(typ)),
 				tq.SetHeaderSeqNo(want.H.Seq-1), tq.SetHeaderSessionID(tq.SessionID(want.H.Session)))), tq.SetPacketBody([]byte{1, 2, 3}))
@@ -445,6 +522,13 @@ func runC05(b *mon.B) {
 				break
 			}
 			b.Count("client_replies_reconstructed", 1)
+			heldGot = append(heldGot, got)
+		}
+		for i, g := range heldGot {
+			if !bytes.Equal(g.Body, replies[i].Clear) {
+				b.Violate(caseNo, "C05/client/returned-packet-changed-later", fmt.Sprintf("the packet Client.Send returned for reply %d changed after later replies were read (schedule %q)", i+1, sc.Name), map[string]interface{}{"schedule": sc.Name})
+				break
+			}
 		}
 	}
 	b.Count("distinct_chunkings", len(chunkings))
